@@ -39,8 +39,11 @@ func (a Arch) String() string {
 	case short && a.ABI == "gnu" && a.OS == "linux" && a.CPU != "any" && a.CPU != "all" && a.CPU != "":
 		/* a bare CPU is implicitly gnu-linux-CPU */
 		return a.CPU
-	case short && a.ABI == "any":
-		/* OS-CPU leaves the ABI unconstrained */
+	case short && a.ABI == "any" && (a.OS == "any" || a.CPU == "any"):
+		/* the wildcards OS-any and any-CPU leave the ABI unconstrained */
+		return a.OS + "-" + a.CPU
+	case short && a.ABI == "gnu" && a.OS != "any" && a.CPU != "any":
+		/* OS-CPU is implicitly gnu-OS-CPU */
 		return a.OS + "-" + a.CPU
 	}
 	return strings.Join([]string{a.ABI, a.OS, a.CPU}, "-")
